@@ -289,6 +289,7 @@ F5_SCRIPTS = {
     "flash-pattern-folded-from-named-list-then-mutated": "from Reduino.Actuators import Led\nled = Led(9)\nxs = [1, 0, 1]\nled.flash_pattern(xs, 10)\nxs.append(0)\nxs.append(1)\nmon.write('done')\n",
     "parameter-shadows-global-constant": "label = 'hello'\ndef width(label):\n    return len(label)\nw = width('hi')\nmon.write(w)\n",
     "derived-in-main-loop": "x = 1\nwhile True:\n    y = x + 1\n    mon.write(y)\n    x = x + 2\n    sleep(1)\n",
+    "len-of-non-ascii-literals": "mon.write(len('héllo'))\ns = 'héllo'\nmon.write(len(s))\nif len('µs') == 2:\n    mon.write('two')\nelse:\n    mon.write('not two')\nmon.write(len('größe') + len('€'))\nsleep(len('°°°'))\n",
     "restore-to-entry-constant-then-change-later-in-pass": "v = 1\nwhile True:\n    v = 1\n    sleep(v)\n    mon.write(v)\n    v = 7\n    mon.write(v)\n",
     "restore-constant-after-taken-branch": "v = 2\nc = 1\nif c > 0:\n    v = 9\nmon.write(v)\nv = 2\nmon.write(v)\n",
     "restore-constant-between-def-and-call": "lim = 3\ndef cap(x):\n    if x > lim:\n        return lim\n    return x\nlim = 8\nmon.write(cap(6))\nlim = 3\nmon.write(cap(6))\n",
@@ -321,6 +322,7 @@ F6_SCRIPTS = {
     "motor-speed-changed-in-main-loop": "m = DCMotor(5, 6, 9)\nb = 0.125\nwhile True:\n    b += 0.125\n    m.set_speed(b)\n    mon.write('p')\n    sleep(5)\n",
     "motor-backward-after-branch": "m = DCMotor(5, 6, 9)\nv = 0.5\nc = 1\nif c > 0:\n    v = 0.75\nm.backward(v)\nmon.write('a')\n",
     "servo-angle-changed-in-while": "s = Servo(9)\nangle = 10\nk = 0\nwhile k < 3:\n    angle = angle + 20\n    k = k + 1\ns.write(angle)\nmon.write('a')\n",
+    "flash-pattern-with-equal-neighbours": "led = Led(9)\nled.flash_pattern([1, 1, 0, 0, 0, 1], 10)\nmon.write('a')\npat = [0, 0, 1, 1]\nled.flash_pattern(pat, 7)\nmon.write('b')\nled.flash_pattern([1, 1, 1], 5)\nmon.write('c')\n",
     "led-brightness-changed-in-for": "led = Led(9)\nlevel = 10\nfor i in range(3):\n    level = level + 40\nled.set_brightness(level)\nmon.write('a')\n",
     "motor-ramp-target-changed-in-for": "m = DCMotor(5, 6, 9)\nt = 0.25\nfor i in range(2):\n    t = t + 0.25\nm.ramp(t, 40, 4)\nmon.write('a')\n",
 }
